@@ -37,7 +37,7 @@ class CallMixin(object):
                 try:
                     b = self.spec_truth(n.args[1])
                 finally:
-                    del self.pc[mark:]
+                    self.close_guard(mark, getattr(self, 'quant_vars', ()))
                 return tm.implies(a, b)
             if f.id == 'ite':
                 c = self.spec_truth(n.args[0])
@@ -222,7 +222,9 @@ class CallMixin(object):
         return True
 
     def find_contract(self, func, obj, abstract_ok=False):
-        if self.contract_lookup is None or getattr(self, 'force_inline', False):
+        if self.contract_lookup is None:
+            return None
+        if getattr(self, 'force_inline', False) and not (isinstance(obj, Obj) and obj.symbolic and not obj.exact):
             return None
         return self.contract_lookup(self, func, obj, abstract_ok)
 
@@ -484,11 +486,19 @@ class CallMixin(object):
             saved[p] = fr.env.get(p, UNBOUND)
             fr.env[p] = v
         mark = len(self.pc)
+        self.pc.append(tm.TRUE) if False else None
+        saved_qv = getattr(self, 'quant_vars', ())
+        self.quant_vars = tuple(saved_qv) + tuple(vs)
         try:
             body = self.spec_truth(lam.body)
         finally:
             self.in_quant -= 1
+            self.quant_vars = saved_qv
+            inner = self.pc[mark:]
             del self.pc[mark:]
+            for t_ in inner:
+                bs = [v for v in vs if tm.subterms(t_, lambda x, v=v: x == v)]
+                self.assume_fact(tm.forall(bs, t_) if bs else t_)
             for p, v in saved.items():
                 if v is UNBOUND:
                     fr.env.pop(p, None)
